@@ -1984,9 +1984,9 @@ def compute_unique_slug(
         for child in (inline_token.children or [])
         if child.type in ["text", "code_inline"]
     )
-    slug = slug_func(title)
+    base_slug = slug = slug_func(title)
     i = 1
     while slug in slugs:
-        slug = f"{slug}-{i}"
+        slug = f"{base_slug}-{i}"
         i += 1
     return slug
